@@ -131,7 +131,48 @@ def _laws():
     return (m.rotate(v, m.quat_rot_axis(a, th)),
             jp.cos(th) * v + jp.sin(th) * jp.cross(a, v) + (1 - jp.cos(th)) * jp.dot(a, v) * a)
   U['rotate_quatRotAxis'] = ([3, 3, 1], rod)
+  def from_to_law(a, b):
+    v1 = a / jp.linalg.norm(a); v2 = b / jp.linalg.norm(b)
+    q = m.from_to(v1, v2)
+    return jp.concatenate([m.rotate(v1, q), n2(q)[None]]), jp.concatenate([v2, jp.ones(1)])
+  U['fromTo_rotates'] = ([3, 3], from_to_law)
+  def euler_rt(q):
+    q = unit(q)
+    e = m.quat_to_euler(q)
+    q2 = m.euler_to_quat(e * 180 / jp.pi)
+    sgn = jp.where(jp.dot(q, q2) < 0, -1.0, 1.0)
+    lock = jp.abs(2 * q[1] * q[3] + 2 * q[0] * q[2]) > 1 - 1e-9     # gimbal lock: x, z not determined
+    return jp.where(lock, q, sgn * q2), q
+  U['quatToEuler_roundtrip'] = ([4], euler_rt)
   return L, U
+
+
+def from_to_exhaustive():
+  """`from_to` on every pair of parallel and antiparallel normalised lattice directions of [-3,3]^3 (the
+  property's own lattice) and on all pairs of the 26 directions of {-1,0,1}^3: the result must be a unit
+  quaternion rotating v1 onto v2.  Returns (evaluations, failures)."""
+  import itertools
+  import jax
+  import jax.numpy as jp
+  from brax import math as m
+  dirs = np.array([v for v in itertools.product(range(-3, 4), repeat=3) if any(v)], dtype=np.float64)
+  small = np.array([v for v in itertools.product(range(-1, 2), repeat=3) if any(v)], dtype=np.float64)
+  A = np.concatenate([dirs, dirs, np.repeat(small, len(small), axis=0)])
+  B = np.concatenate([-dirs, 2 * dirs, np.tile(small, (len(small), 1))])
+  def one(a, b):
+    v1 = a / jp.linalg.norm(a); v2 = b / jp.linalg.norm(b)
+    q = m.from_to(v1, v2)
+    return jp.concatenate([m.rotate(v1, q), jp.dot(q, q)[None]]), jp.concatenate([v2, jp.ones(1)])
+  lhs, rhs = jax.jit(jax.vmap(one))(jp.asarray(A), jp.asarray(B))
+  lhs, rhs = np.asarray(lhs), np.asarray(rhs)
+  bad = ~(np.abs(lhs - rhs).max(axis=1) <= 1e-9)      # NaN counts as bad
+  fails = []
+  for k in np.nonzero(bad)[0][:1]:
+    fails.append(dict(key='law:fromTo_rotates', law='fromTo_rotates', inputs=[A[k].tolist(), B[k].tolist()],
+                      lhs=lhs[k].tolist(), rhs=rhs[k].tolist(),
+                      what='from_to does not return a unit quaternion rotating v1 onto v2 '
+                           f'({int(bad.sum())} of {len(A)} lattice pairs fail)'))
+  return len(A), fails
 
 
 def eval_laws(rng, n_points, only=None):
@@ -147,6 +188,10 @@ def eval_laws(rng, n_points, only=None):
       jfn = fn if name.endswith('Np_eq') else jax.jit(fn)
       for _ in range(n_points):
         xs = [rng.integers(-9, 10, size=s).astype(np.float64) for s in sizes]
+        if name == 'fromTo_rotates':
+          xs = [rng.integers(-3, 4, size=3).astype(np.float64) for _ in sizes]
+          if not xs[0].any() or not xs[1].any():
+            continue
         if not exact and any(s == 4 and not x.any() for s, x in zip(sizes, xs)):
           continue
         if not exact and any((s == 7 and not x[3:].any()) or (s == 3 and name == 'rotate_quatRotAxis' and not x.any()) for s, x in zip(sizes, xs)):
@@ -235,12 +280,15 @@ def correspond(ctx):
   else:
     disagreements.append(dict(what='generated Lean does not compile', log=log[-1500:]))
   n_laws, n_distinct, fails = eval_laws(rng, ctx.budget(60, 1500))
+  n_ft, ft_fails = from_to_exhaustive()
+  n_laws += n_ft; n_distinct += n_ft; fails += ft_fails
   return dict(
       evaluations=n_tie + n_laws, distinct_nontrivial=n_distinct,
       rule='(a) every generated definition evaluated by Lean at Rat on integer lattice points and at '
            'Float on decimal points vs the real jitted function; (b) every law of Props/C09 evaluated '
            'with the real functions on integer lattice points of [-9,9]^n (exact) resp. unit quaternions '
-           '(1e-9); distinct = distinct (law, input) pairs',
+           '(1e-9); from_to on every parallel / antiparallel pair of normalised lattice directions of [-3,3]^3 and all pairs of '
+           '{-1,0,1}^3 directions; distinct = distinct (law, input) pairs',
       samples=[dict(law='rotate_quatMul', inputs='v,p,q in [-9,9]^n integers'),
                dict(generated=sorted(k for k, v in _report.items() if v.get('ok')))],
       disagreements=disagreements, spec_failures=fails,
@@ -256,7 +304,7 @@ def correspond(ctx):
 def search(ctx, broken, corr):
   rng = np.random.default_rng(ctx.seed + 1)
   _, _, fails = eval_laws(rng, ctx.budget(2000, 20000))
-  return fails
+  return fails + from_to_exhaustive()[1]
 
 
 def replay(ctx, rp):
